@@ -1,23 +1,23 @@
 CONSTANTS
-  MaxId = 1
+  MaxId = 3
   ZeroIncBug = FALSE
   OpenRaceBug = FALSE
   W = 1
   B = 1
-  Openers = {}
-  MaxWrite = 4
-  MaxRead = 2
-  Budget = 5
+  Openers = {0, 1}
+  MaxWrite = 1
+  MaxRead = 1
+  Budget = 6
   WireCap = 3
   DoExport = TRUE
   DeadlineBug = "none"
-  Acts = {"wstart","write","read","cw"}
+  Acts = {"open","openx","accept","cancel","close","write","read"}
   Modes = {}
-  DlEnds = {0}
-  PreEst = TRUE
+  DlEnds = {}
+  PreEst = FALSE
   BlockOnRoom = FALSE
-  IdTop = FALSE
-  TrackKinds = {"wt","rt"}
+  IdTop = TRUE
+  TrackKinds = {"xo0","xo1"}
 SPECIFICATION Spec
 VIEW view
 INVARIANT InvTokens InvInOrder InvEOFComplete InvNoCrossTalk InvNoViolation InvWindow InvWire Export
